@@ -208,8 +208,19 @@ func CompareCrash(acked *model.Shard, in *Inflight, obs Observed, via string) *M
 	}
 	for _, key := range acked.SeriesKeys() {
 		s := acked.Series[key]
-		for f, pts := range s.Fields {
+		var fnames []string
+		for f := range s.Fields {
+			fnames = append(fnames, f)
+		}
+		sort.Strings(fnames)
+		for _, f := range fnames {
+			pts := s.Fields[f]
+			var times []int64
 			for t := range pts {
+				times = append(times, t)
+			}
+			sort.Slice(times, func(i, j int) bool { return times[i] < times[j] })
+			for _, t := range times {
 				if seen[cellKey{key, f, t}] {
 					continue
 				}
@@ -260,6 +271,17 @@ func FromObserved(obs Observed, prev *model.Shard) *model.Shard {
 	return m
 }
 
+// sortedKeys: the oracle reports the first mismatch it meets, so it walks its
+// sets in a fixed order (a seed is one execution).
+func sortedKeys(m map[string]bool) []string {
+	out := make([]string, 0, len(m))
+	for k := range m {
+		out = append(out, k)
+	}
+	sort.Strings(out)
+	return out
+}
+
 // CompareListing checks the index listings against the model: every series
 // with a point is listed; series emptied by a drop or a single covering delete
 // are not; measurements, tag keys and tag values follow from the listed
@@ -276,7 +298,7 @@ func CompareListing(m *model.Shard, l *Listing) *Mismatch {
 			return &Mismatch{Class: "series-listed-without-data", Key: k, Detail: fmt.Sprintf("series %s is listed but has no points (listed=%v)", k, l.Series)}
 		}
 	}
-	for k := range must {
+	for _, k := range sortedKeys(must) {
 		if !listed[k] {
 			return &Mismatch{Class: "series-with-data-not-listed", Key: k, Detail: fmt.Sprintf("series %s has points but is not listed (listed=%v)", k, l.Series)}
 		}
@@ -324,7 +346,7 @@ func CompareListing(m *model.Shard, l *Listing) *Mismatch {
 				return &Mismatch{Class: "listing-has-removed-item", Site: strings.SplitN(what, "(", 2)[0], Detail: fmt.Sprintf("%s lists %q which no remaining series has (got %v)", what, x, got)}
 			}
 		}
-		for x := range s.lo {
+		for _, x := range sortedKeys(s.lo) {
 			if !g[x] {
 				return &Mismatch{Class: "listing-misses-item", Site: strings.SplitN(what, "(", 2)[0], Detail: fmt.Sprintf("%s does not list %q although a series with points has it (got %v)", what, x, got)}
 			}
@@ -334,7 +356,7 @@ func CompareListing(m *model.Shard, l *Listing) *Mismatch {
 	if mm := within("MeasurementNames", l.Measurements, meas); mm != nil {
 		return mm
 	}
-	for name := range meas.hi {
+	for _, name := range sortedKeys(meas.hi) {
 		s, ok := tagKeys[name]
 		if !ok {
 			s = mk()
@@ -342,13 +364,18 @@ func CompareListing(m *model.Shard, l *Listing) *Mismatch {
 		if mm := within("TagKeys("+name+")", l.TagKeys[name], s); mm != nil {
 			return mm
 		}
-		for k := range s.hi {
+		for _, k := range sortedKeys(s.hi) {
 			if mm := within("TagValues("+name+","+k+")", l.TagValues[name][k], tagVals[name+"\x00"+k]); mm != nil {
 				return mm
 			}
 		}
 	}
+	var lnames []string
 	for name := range l.TagKeys {
+		lnames = append(lnames, name)
+	}
+	sort.Strings(lnames)
+	for _, name := range lnames {
 		if !meas.hi[name] && len(l.TagKeys[name]) > 0 {
 			return &Mismatch{Class: "listing-has-removed-item", Detail: fmt.Sprintf("TagKeys lists measurement %q which has no series", name)}
 		}
